@@ -171,6 +171,15 @@ fn unrelated_activity(seed: u64, n: usize) {
         }
         let other = logical::large(n * 5 / 6 + (seed % 7) as usize * 30, seed ^ 0x0f0f, 1 + (seed % 4) as u8);
         let _ = super::c01::write_logical(&other, seed % 2 == 0);
+        // a directory the library refuses (entry of length 0), sync and async, and an unserialisable header
+        let mut bad = entries[..entries.len().min(20)].to_vec();
+        if let Some(e) = bad.get_mut(3) {
+            e.length = 0;
+        }
+        let bd = pmtiles2::Directory::from(bad);
+        let _ = bd.to_writer(&mut std::io::Cursor::new(Vec::new()), pmtiles2::Compression::GZip);
+        let _ = futures::executor::block_on(bd.to_async_writer(&mut futures::io::Cursor::new(Vec::new()), pmtiles2::Compression::None));
+        let _ = pmtiles2::util::write_directories(&mut std::io::Cursor::new(Vec::new()), &Vec::from(bd), pmtiles2::Compression::None, None);
         let blob = pmtiles2::util::compress_all(pmtiles2::Compression::ZStd, &seed.to_le_bytes());
         if let Ok(b) = blob {
             let _ = pmtiles2::util::decompress_all(pmtiles2::Compression::ZStd, &b);
@@ -253,8 +262,52 @@ fn check_foreign(c: &FCase) -> CaseResult {
     if backed != in_memory {
         fail!("C16/backed-differs-from-in-memory/foreign-source", "the archive re-saved from its (foreign) backing archive and the same archive built in memory serialise differently: {}", first_diff(&backed, &in_memory));
     }
+    // the backing stream is shared with another user (a second handle on the same file): between a lookup and the
+    // save its position is moved from outside; the lowest tile is replaced in memory, so the save starts with the
+    // second one
+    let mut shared_stream = false;
+    if b.expected.len() >= 2 {
+        use crate::sio::{Sched, Stream};
+        let st = Stream::reader(b.bytes.clone(), Sched::none());
+        let first = *b.expected.keys().next().unwrap_or(&0);
+        let newc = vec![0xC1u8, 0x6E, 7];
+        let written: std::io::Result<Vec<u8>> = if c.asyncw {
+            guarded("from_async_reader+get+add+to_async_writer", || -> std::io::Result<Vec<u8>> {
+                let mut pm = futures::executor::block_on(pmtiles2::PMTiles::from_async_reader(st.clone()))?;
+                let _ = futures::executor::block_on(pm.get_tile_by_id_async(first))?;
+                st.with(|k| k.pos = 5);
+                pm.add_tile(first, newc.clone())?;
+                let mut out = futures::io::Cursor::new(Vec::new());
+                futures::executor::block_on(pm.to_async_writer(&mut out))?;
+                Ok(out.into_inner())
+            })?
+        } else {
+            guarded("from_reader+get+add+to_writer", || -> std::io::Result<Vec<u8>> {
+                let mut pm = pmtiles2::PMTiles::from_reader(st.clone())?;
+                let _ = pm.get_tile_by_id(first)?;
+                st.with(|k| k.pos = 5);
+                pm.add_tile(first, newc.clone())?;
+                let mut out = std::io::Cursor::new(Vec::new());
+                pm.to_writer(&mut out)?;
+                Ok(out.into_inner())
+            })?
+        };
+        let written = written.map_err(|e| Fail::new("C16/write-err", format!("shared backing stream: {e}")))?;
+        let mut mem2 = if c.asyncw { Arch::new_async() } else { Arch::new_sync() };
+        mem2.set_fields(&fields);
+        for (id, (off, len)) in &b.expected {
+            let content = if *id == first { newc.clone() } else { b.bytes[*off as usize..*off as usize + *len as usize].to_vec() };
+            mem2.add(*id, content).map_err(|e| Fail::new("C16/harness", format!("{e}")))?;
+        }
+        let twin = guarded("to_writer", || mem2.write())?.map_err(|e| Fail::new("C16/write-err", format!("{e}")))?;
+        if written != twin {
+            fail!("C16/backed-differs-from-in-memory/shared-backing-stream", "archive saved from a backing stream whose position was moved by another user differs from the same archive built in memory: {}", first_diff(&written, &twin));
+        }
+        shared_stream = true;
+    }
     let f = &b.facts;
     Ok(Meta::new(b.expected.len() >= 2)
+        .label(shared_stream, "backing-stream-shared-with-another-user")
         .label(true, "tiles-in-foreign-backing-archive")
         .label(f.prefix_overlap, "same-offset-different-length")
         .label(f.shared_offset, "shared-offset")
